@@ -39,3 +39,9 @@ pub proof fn a_violation_is_reported_thread_safety(s: Seq<(Type, ComponentId)>, 
 {
     if j < n - 1 { a_violation_is_reported_thread_safety(s, n - 1, j); }
 }
+
+/// Rule "a `&mut` input on a constructor / middleware / error handler / observer": input `i` is a mutable reference
+pub open spec fn is_mut_ref(t: &Type) -> bool { t matches Type::Reference(r) && r.is_mutable }
+pub open spec fn first_mut_ref(inputs: Seq<&Type>, i: int) -> bool {
+    0 <= i < inputs.len() && is_mut_ref(inputs[i]) && forall |j: int| 0 <= j < i ==> !is_mut_ref(#[trigger] inputs[j])
+}
